@@ -39,6 +39,7 @@ pub fn eval(line: &str) -> String {
         Some("names") => name::eval_all(&toks),
         Some("client") => client::eval(&toks),
         Some("cfg") => config::eval_cfg(&toks),
+        Some("rtype") => config::eval_rtype(&toks),
         Some("rdata") => decode::eval_rdata(&toks),
         Some("reader") => decode::eval_reader(&toks),
         Some("xmark") => decode::eval_xmark(&toks),
